@@ -187,4 +187,69 @@ type Other { title: String }`
 		os.RemoveAll(b.dir)
 		e.count(fmt.Sprintf("unreachable_target_scenario_%d", variant))
 	}
+	// ---- 4: the target moves to another address; the source is told (SetReplicator again) and later restarts
+	{
+		a, b := mk("A", basePort+8), mk("B", basePort+9)
+		var desc []string
+		replay := map[string]any{"events": &desc}
+		okA, okB := a.open(ctx) == nil, b.open(ctx) == nil
+		if okA && okB {
+			a.x.addSchema(ctx, sdl)
+			b.x.addSchema(ctx, sdl)
+			if err := a.x.n.Peer.SetReplicator(ctx, b.x.n.Peer.PeerInfo()); err != nil {
+				e.violate("harness-repl", "SetReplicator: "+err.Error(), replay)
+			}
+			a.x.gql(ctx, `mutation { create_User(input: {name: "first", age: 1}) { _docID } }`)
+			desc = append(desc, "A: SetReplicator(B)", "A: create User first")
+			want := dumpCol(ctx, a.x, "User", "name age")
+			waitUntil(15*time.Second, func() bool { return dumpCol(ctx, b.x, "User", "name age") == want })
+			b.close(ctx)
+			b.port = basePort + 10
+			if err := b.open(ctx); err != nil {
+				e.violate("harness-repl", "reopen B on another port: "+err.Error(), replay)
+			} else {
+				desc = append(desc, "B: restarts on another port")
+				if err := a.x.n.Peer.SetReplicator(ctx, b.x.n.Peer.PeerInfo()); err != nil {
+					e.violate("harness-repl", "SetReplicator (new address): "+err.Error(), replay)
+				}
+				desc = append(desc, "A: SetReplicator(B at its new address)")
+				a.x.gql(ctx, `mutation { create_User(input: {name: "second", age: 2}) { _docID } }`)
+				desc = append(desc, "A: create User second")
+				want = dumpCol(ctx, a.x, "User", "name age")
+				conv := waitUntil(25*time.Second, func() bool { return dumpCol(ctx, b.x, "User", "name age") == want })
+				e.Res.Evaluations++
+				if !conv {
+					e.violate("replication-incomplete", fmt.Sprintf("B moved to another address and A was told: A has [%s], B has [%s]", want, dumpCol(ctx, b.x, "User", "name age")), replay)
+				}
+				a.close(ctx)
+				if err := a.open(ctx); err != nil {
+					e.violate("restart-open-failed", "reopen A: "+err.Error(), replay)
+				} else {
+					desc = append(desc, "A: close and reopen")
+					reps, _ := a.x.n.Peer.GetAllReplicators(ctx)
+					newAddr := fmt.Sprintf("/tcp/%d", b.port)
+					for _, rep := range reps {
+						if !strings.Contains(fmt.Sprint(rep.Info.Addrs), newAddr) {
+							e.violate("peerconfig-replicators", fmt.Sprintf("after the restart GetAllReplicators reports the address %v for B, the address given in the last SetReplicator call ends in %s", rep.Info.Addrs, newAddr), replay)
+						}
+					}
+					a.x.gql(ctx, `mutation { create_User(input: {name: "third", age: 3}) { _docID } }`)
+					desc = append(desc, "A: create User third")
+					want = dumpCol(ctx, a.x, "User", "name age")
+					conv := waitUntil(25*time.Second, func() bool { return dumpCol(ctx, b.x, "User", "name age") == want })
+					e.Res.Evaluations++
+					if !conv {
+						e.violate("replication-incomplete-after-restart", fmt.Sprintf("B moved to another address, A was told and restarted later: A has [%s], B has [%s]", want, dumpCol(ctx, b.x, "User", "name age")), replay)
+					}
+				}
+			}
+		} else {
+			e.violate("harness-repl", "open A / B failed", replay)
+		}
+		a.close(ctx)
+		b.close(ctx)
+		os.RemoveAll(a.dir)
+		os.RemoveAll(b.dir)
+		e.count("moved_target_scenario")
+	}
 }
